@@ -108,6 +108,9 @@ func (priv *SignPrivateKey) Sign(rand io.Reader, hash []byte, opts crypto.Signer
 		hNat *bigmod.Nat
 		s    *bn256.G1
 	)
+	if priv.SignMasterPublicKey == nil || priv.SignMasterPublicKey.MasterPublicKey == nil {
+		return nil, nil, errMasterPublicKeyRequired
+	}
 	randutil.MaybeReadByte(rand)
 	for {
 		r, err := randomScalar(rand)
@@ -248,6 +251,10 @@ func (priv *EncryptPrivateKey) UnwrapKey(uid, cipher []byte, kLen int) (key []by
 	return
 }
 
+// errMasterPublicKeyRequired is returned by operations of a user key that was parsed
+// without its master public key and has not been given one (SetMasterPublicKey).
+var errMasterPublicKeyRequired = errors.New("sm9: the user key has no master public key")
+
 // ErrDecryption represents a failure to decrypt a message.
 // It is deliberately vague to avoid adaptive attacks.
 var ErrDecryption = errors.New("sm9: decryption error")
@@ -308,6 +315,9 @@ func initKeyExchange(ke *KeyExchange, hid byte, r *bigmod.Nat) {
 
 // InitKeyExchange generates random with responder uid, for initiator's step A1-A4
 func (ke *KeyExchange) InitKeyExchange(rand io.Reader, hid byte) ([]byte, error) {
+	if ke.privateKey.EncryptMasterPublicKey == nil || ke.privateKey.EncryptMasterPublicKey.MasterPublicKey == nil {
+		return nil, errMasterPublicKeyRequired
+	}
 	r, err := randomScalar(rand)
 	if err != nil {
 		return nil, err
@@ -403,6 +413,9 @@ func respondKeyExchange(ke *KeyExchange, hid byte, r *bigmod.Nat, rA []byte) ([]
 
 // RespondKeyExchange when responder receive rA, for responder's step B1-B7
 func (ke *KeyExchange) RespondKeyExchange(rand io.Reader, hid byte, rA []byte) ([]byte, []byte, error) {
+	if ke.privateKey.EncryptMasterPublicKey == nil || ke.privateKey.EncryptMasterPublicKey.MasterPublicKey == nil {
+		return nil, nil, errMasterPublicKeyRequired
+	}
 	r, err := randomScalar(rand)
 	if err != nil {
 		return nil, nil, err
